@@ -10,7 +10,6 @@ import (
 	"encoding/json"
 	"fmt"
 	"os"
-	"path/filepath"
 	"sort"
 	"strings"
 	"syscall"
@@ -88,15 +87,29 @@ func (r *Run) DoBatch(b *BatchSpec) *batchOutcome {
 	lp := r.logPath()
 	_, lb, _ := storeFiles(r.W.Proj)
 	out.snaps = append(out.snaps, logSnap{seq: r.W.Seq, bytes: lb})
-	r.W.OnPost = func(w *World, p *Proc, e *Ev) {
-		if !e.IsMutating() && e.Op != "rename" {
+	// committed states of the log: at the start, whenever a process releases
+	// the lock, and whenever a process ends (covers writers that take no lock).
+	// What a file holds in the middle of somebody's lock section (a truncated
+	// or half-written or momentarily absent log) is NOT a state of the store.
+	commit := func(w *World) {
+		_, cur, _ := storeFiles(w.Proj)
+		if n := len(out.snaps); n > 0 && bytes.Equal(out.snaps[n-1].bytes, cur) {
 			return
 		}
-		base := filepath.Base(e.Path)
-		base2 := filepath.Base(e.Path2)
-		if strings.HasSuffix(base, ".jsonl") || strings.HasSuffix(base2, ".jsonl") {
-			_, cur, _ := storeFiles(w.Proj)
-			out.snaps = append(out.snaps, logSnap{seq: w.Seq, bytes: cur})
+		out.snaps = append(out.snaps, logSnap{seq: w.Seq, bytes: cur})
+	}
+	r.W.OnPost = func(w *World, p *Proc, e *Ev) {
+		if e.Op == "flock" && e.Flags&syscall.LOCK_UN != 0 {
+			commit(w)
+		}
+	}
+	r.W.OnExit = func(w *World, p *Proc) {
+		// only a process that changed the log can have committed anything
+		for _, e := range p.Events {
+			if e.Visible && e.Posted && e.IsMutating() && (strings.Contains(e.Path, ".jsonl") || strings.Contains(e.Path2, ".jsonl")) {
+				commit(w)
+				return
+			}
 		}
 	}
 	_ = lp
@@ -104,6 +117,7 @@ func (r *Run) DoBatch(b *BatchSpec) *batchOutcome {
 	blocksBefore := r.W.Blocks
 	res := r.W.RunBatchLazy(specs, sched, b.Faults)
 	r.W.OnPost = nil
+	r.W.OnExit = nil
 	out.res = res
 	out.procs = res.Procs
 	if b.Strategy != "replay" {
@@ -356,11 +370,13 @@ func candidateLogs(snaps []logSnap, lo, hi int) [][]byte {
 	}
 	for i := start; i < len(snaps); i++ {
 		s := snaps[i]
+		add(s.bytes)
 		if s.seq > hi {
+			// the first state committed after the reader ended: its content may
+			// already have been visible (after the rename, before the unlock)
 			break
 		}
-		add(s.bytes)
-		if i+1 < len(snaps) && snaps[i+1].seq <= hi && bytes.HasPrefix(snaps[i+1].bytes, s.bytes) {
+		if i+1 < len(snaps) && bytes.HasPrefix(snaps[i+1].bytes, s.bytes) {
 			// growth by append: intermediate line prefixes
 			nb := snaps[i+1].bytes
 			for off := len(s.bytes); off < len(nb); off++ {
